@@ -521,7 +521,6 @@ func checkInPlaceIdentity(p *core.Prog, r *core.Result, ops *opTable, dt *decode
 	r.Floor("R7.11", n, 2, "in-place decoder cases")
 }
 
-
 // checkMemoIdentity implements R7.12: the encoder's memo is keyed by the identity of the value being encoded. A key
 // constructed inside the encoder from a value's contents (e.g. starlark.String(s) for the text of both a String and a
 // Bytes) makes values of different types share one memo entry: the second one is written as a back-reference to the
@@ -636,7 +635,6 @@ func checkMemoIdentity(p *core.Prog, r *core.Result) {
 	}
 	r.Floor("R7.12", n, 3, "memo accesses of the encoder")
 }
-
 
 // checkDecodedFromPayload implements R7.13: every value the decoder pushes is built from the payload of the opcode
 // being decoded, taken from the operand stack or the memo, or produced by the host unpickler - never taken from
